@@ -228,6 +228,19 @@ def run_property(pid, tier, seed, only=None):
         native_viol = [x for x in extra["native_cross_checks"] if x["confirmed_violation"]]
         if any(l["verdict"] != "proved" for l in extra.get("lean_lemmas", [])):
             undecided.append(C.Result(pid + "/lean_lemma", "lean", "-", "lean_lemma", "lemma"))
+    if tier == "quick" and (not only or only == "genjax"):
+        # behaviour the verifier's model of numbers cannot express (NaN densities, exact -inf) is covered by NATIVE
+        # stand-ins with stated inputs, run on every change; they are listed as bounded checks, never as proved
+        from . import thorough as TH
+        from contracts.native import run_native
+
+        qn = []
+        for spec in TH.QUICK_NATIVE.get(pid, []):
+            r = run_native(*spec, timeout=600)
+            qn.append({"script": list(spec), "confirmed_violation": bool(r.get("confirmed")), "tier": r.get("tier"), "kind": "bounded (native stand-in, stated inputs)", "detail": {k: v for k, v in r.items() if k != "tier"}})
+        if qn:
+            ev["coverage"]["quick_native_stand_ins"] = qn
+            native_viol = [x for x in qn if x["confirmed_violation"]]
     os.makedirs(os.path.join(ROOT, "evidence"), exist_ok=True)
     if not only:
         with open(os.path.join(ROOT, "evidence", pid + ".json"), "w") as f:
